@@ -63,9 +63,8 @@ def parseNatAux : Str → Nat → Option Nat
 def parseNat? (s : Str) : Option Nat := if s.isEmpty then none else parseNatAux s 0
 /-- `int(s)` with an optional leading minus -/
 def parseInt? (s : Str) : Option Int :=
-  match s with
-  | '-' :: r => (parseNat? r).map (fun n => - (n : Int))
-  | _ => (parseNat? s).map (fun n => (n : Int))
+  if s.head? == some '-' then (parseNat? (s.drop 1)).map (fun n => - (n : Int))
+  else (parseNat? s).map (fun n => (n : Int))
 
 def isWs (c : Char) : Bool := c = ' ' || c = '\t' || c = '\n' || c = '\r'
 def lstrip (s : Str) : Str := s.dropWhile isWs
